@@ -200,6 +200,9 @@ func (c *ClusterInfo) GetLookupdProducers(lookupdHTTPAddrs []string) (Producers,
 			lock.Lock()
 			defer lock.Unlock()
 			for _, producer := range resp.Producers {
+				if producer == nil {
+					continue
+				}
 				key := producer.TCPAddress()
 				p, ok := producersByAddr[key]
 				if !ok {
